@@ -7,7 +7,7 @@
    [fs] for what the file system says about a path.  All statements quantify
    over ALL contents, ALL header byte strings and ALL request paths. *)
 From Coq Require Import List ZArith NArith Ascii String Bool.
-From Martian.C20 Require Import Model Proofs_Base Proofs_Serve Proofs_Path Proofs_Dec.
+From Martian.C20 Require Import Model Proofs_Base Proofs_Serve Proofs_Path Proofs_Dec Proofs_Oracle Proofs_Grammar.
 Import ListNotations.
 Open Scope Z_scope.
 
@@ -172,6 +172,111 @@ Theorem C20_oracle_is_the_property_static : forall lower fs root explicit st0 ur
 Proof. exact static_ok_iff. Qed.
 Print Assumptions C20_oracle_is_the_property_static.
 
+(* --- the verdicts of the driver --- *)
+(* model-vs-observation comparison is equality of the projected results *)
+Theorem C20_comparison_is_equality : forall a b, result_eqb a b = true <-> a = b.
+Proof. exact result_eqb_eq. Qed.
+Print Assumptions C20_comparison_is_equality.
+
+(* an OK verdict: the statement holds on that observation, clause by clause *)
+Theorem C20_ok_verdict_means : forall lower content ct st0 hdr o,
+  c20_serve_ok lower content ct st0 hdr o = true ->
+  serve_prop lower content ct st0 hdr o /\
+  o <> RPanic /\ (forall st, o <> RErr st) /\
+  (forall r, o = Resp r ->
+     Forall (fun ch => infix ch content) (chunks r) /\
+     (hdr = [] -> r_body r = content /\ r_clen r = blen content /\ r_status r = st0) /\
+     (hdr <> [] -> r_status r = 206 \/ r_status r = 416)).
+Proof. exact serve_ok_means. Qed.
+Print Assumptions C20_ok_verdict_means.
+
+(* no clause is reported exactly when the statement holds *)
+Theorem C20_no_clause_iff_property : forall lower content ct st0 hdr o,
+  serve_clause lower content ct st0 hdr o = None <-> serve_prop lower content ct st0 hdr o.
+Proof. exact serve_clause_none_iff. Qed.
+Print Assumptions C20_no_clause_iff_property.
+
+Theorem C20_no_clause_iff_property_static : forall lower fs root explicit st0 urlpath hdr o,
+  static_clause lower fs root explicit st0 urlpath hdr o = None <->
+  static_prop lower fs root explicit st0 urlpath hdr o.
+Proof. exact static_clause_none_iff. Qed.
+Print Assumptions C20_no_clause_iff_property_static.
+
+(* a PROPFAIL names a clause the observation really breaks *)
+Theorem C20_propfail_clause_means : forall lower content ct st0 hdr o c,
+  serve_clause lower content ct st0 hdr o = Some c ->
+  ~ serve_prop lower content ct st0 hdr o /\
+  match c with
+  | CNeverPanics => o = RPanic
+  | CNeverOutsideContent =>
+      exists r, o = Resp r /\ ~ Forall (fun ch => infix ch content) (chunks r)
+  | C206ExactBytes =>
+      exists r, o = Resp r /\ r_status r = 206 /\ ~ shape_prop lower content ct st0 hdr r
+  | CFullOr206Or416 =>
+      o <> RPanic /\ forall r, o = Resp r -> r_status r <> 206 /\ ~ shape_prop lower content ct st0 hdr r
+  | CPathUnderRoot => False
+  end.
+Proof. exact serve_clause_sound. Qed.
+Print Assumptions C20_propfail_clause_means.
+
+Theorem C20_propfail_clause_means_static : forall lower fs root explicit st0 urlpath hdr o c,
+  static_clause lower fs root explicit st0 urlpath hdr o = Some c ->
+  ~ static_prop lower fs root explicit st0 urlpath hdr o /\
+  match c with
+  | CNeverPanics => o = RPanic
+  | CPathUnderRoot =>
+      exists r, o = Resp r /\ served_from_elsewhere fs (static_path root explicit urlpath) hdr r
+  | CNeverOutsideContent =>
+      exists r data ct, o = Resp r /\ fs (static_path root explicit urlpath) = FFile data ct /\
+                        ~ Forall (fun ch => infix ch data) (chunks r)
+  | C206ExactBytes => exists r, o = Resp r /\ r_status r = 206
+  | CFullOr206Or416 => o <> RPanic
+  end.
+Proof. exact static_clause_sound. Qed.
+Print Assumptions C20_propfail_clause_means_static.
+
+(* the executable "inside the content" test is the existential *)
+Theorem C20_inside_test_is_infix : forall content r,
+  all_inside content r = true <-> Forall (fun ch => infix ch content) (chunks r).
+Proof. exact all_inside_iff. Qed.
+Print Assumptions C20_inside_test_is_infix.
+
+(* --- the parser against the RFC 7233 grammar (specification side written
+       with the printer only): a spec / a whole header in RFC form, numbers in
+       decimal, optional white space around them, any number of specs, is read
+       as exactly those specs and resolved with the RFC rules --- *)
+Theorem C20_rfc_spec_is_read_back : forall p r,
+  pad_ok p -> spec_in_range r -> parse_spec (write_spec p r) = Some r.
+Proof. exact parse_written_spec. Qed.
+Print Assumptions C20_rfc_spec_is_read_back.
+
+Theorem C20_rfc_header_resolved_per_rfc : forall specs content ct bnd st0,
+  specs <> [] -> specs_ok specs ->
+  requested ascii_lower (write_header specs) (blen content)
+    = map_opt (rfc_resolve (blen content)) (map snd specs) /\
+  parse_ranges ascii_lower (write_header specs) (blen content)
+    = map_opt (rfc_resolve (blen content)) (map snd specs) /\
+  body_resp ascii_lower content ct bnd st0 (write_header specs)
+    = Resp (spec_resp ascii_lower content ct bnd st0 (write_header specs)).
+Proof.
+  intros specs content ct bnd st0 Hne Hok.
+  pose proof (requested_written_header ascii_lower specs (blen content) Hne Hok
+                (ascii_lower_written specs Hok)) as H.
+  split; [exact H|]. split; [|exact (body_exact _ _ _ _ _ _)].
+  rewrite (parse_ranges_requested _ _ _ (blen_nonneg content)). exact H.
+Qed.
+Print Assumptions C20_rfc_header_resolved_per_rfc.
+
+(* --- a missing file: 404 and nothing else is touched --- *)
+Theorem C20_static_404_when_missing : forall lower fs root explicit bnd st0 urlpath hdr,
+  fs (static_path root explicit urlpath) = FNotExist ->
+  static_resp lower fs root explicit bnd st0 urlpath hdr = RStatusOnly 404.
+Proof.
+  intros lower fs root explicit bnd st0 urlpath hdr H.
+  rewrite (static_exact lower fs root explicit bnd st0 urlpath hdr). unfold static_spec. now rewrite H.
+Qed.
+Print Assumptions C20_static_404_when_missing.
+
 (* --- non-vacuity: concrete inputs through every arm (and the probed
        witnesses of the defects, answered as the repair answers them) --- *)
 Definition digits10 := s2l "0123456789".
@@ -243,4 +348,35 @@ Example C20_example_numbers :
   atoi (dec (-9223372036854775808)) = Some (-9223372036854775808) /\
   atoi (s2l "9223372036854775808") = None /\ atoi (s2l "+7") = Some 7 /\ atoi (s2l "0x10") = None /\
   content_range 5 9 10 = s2l "bytes 5-9/10".
+Proof. vm_compute. repeat split; reflexivity. Qed.
+
+Example C20_example_written_header :
+  let specs := [(mkPad [] [] [] [], FromTo 1 2);
+                (mkPad (s2l " ") [] (s2l "  ") ["009"%char], FromTo 8 20);
+                (mkPad (s2l " ") [] [] [], Suffix 1);
+                (mkPad [] [] [] [], From 4)] in
+  write_header specs = s2l "bytes=1-2, 8-  20	, -1,4-" /\
+  map_opt (rfc_resolve 10) (map snd specs) = Some [(1, 2); (8, 9); (9, 9); (4, 9)] /\
+  requested ascii_lower (write_header specs) 10 = Some [(1, 2); (8, 9); (9, 9); (4, 9)].
+Proof. vm_compute. repeat split; reflexivity. Qed.
+
+Example C20_example_written_header_hypotheses :
+  specs_ok [(mkPad (s2l " ") [] (s2l "  ") ["009"%char], FromTo 8 20); (mkPad [] [] [] [], Suffix 9223372036854775807)].
+Proof.
+  repeat constructor; cbn; try reflexivity; unfold max_int; try (intro; discriminate).
+Qed.
+
+Example C20_example_clauses :
+  (* the four probed behaviours of the unrepaired code, as observations *)
+  serve_clause ascii_lower digits10 (s2l "t") 200 (s2l "bytes=5-20") RPanic = Some CNeverPanics /\
+  serve_clause ascii_lower digits10 (s2l "t") 200 (s2l "bytes=-3") (RErr 200) = Some CFullOr206Or416 /\
+  serve_clause ascii_lower digits10 (s2l "t") 200 (s2l "bytes=0-10")
+    (Resp (mkResp 206 10 (s2l "t") (s2l "bytes 0-10/10") (digits10 ++ ["000"%char]) None)) = Some CNeverOutsideContent /\
+  serve_clause ascii_lower digits10 (s2l "t") 200 (s2l "bytes=0-3")
+    (Resp (mkResp 206 3 (s2l "t") (s2l "bytes 0-3/10") (s2l "012") None)) = Some C206ExactBytes /\
+  serve_clause ascii_lower digits10 (s2l "t") 200 (s2l "bytes=0-3")
+    (Resp (mkResp 206 4 (s2l "t") (s2l "bytes 0-3/10") (s2l "0123") None)) = None /\
+  static_clause ascii_lower (fun _ => FNotExist) (s2l "/r") [] 200 (s2l "../secret") []
+    (Resp (mkResp 200 7 [] [] (s2l "OUTSIDE") None)) = Some CPathUnderRoot /\
+  static_clause ascii_lower (fun _ => FNotExist) (s2l "/r") [] 200 (s2l "../secret") [] (RStatusOnly 404) = None.
 Proof. vm_compute. repeat split; reflexivity. Qed.
